@@ -248,7 +248,11 @@ def run(tier, seed, replay=None):
                 "pest_meta::parse_and_optimize and the real pest_vm::Vm::parse, compared with their transcription to closure trees, x inputs over {a,b,space}; "
                 "(random) the generic Layer-C generator (all combinators, stack operations, call limits). Non-trivial = the parse fails with a ParsingError and either "
                 "at least two reportable attempts count as failures at the reported position or some reportable attempt was made under a negative predicate; "
-                "distinct by case text.",
+                "distinct by case text. Inputs: the (small) family also runs on \\n, a\\n, a\\r\\nb, \\rb; in (glike), (vm), (random) one case in 3-4 is followed by the "
+                "same tree / grammar on its input with \\n, \\r, \\r\\n, \\n\\n or a two-byte character inserted at / in place of / in front of the position the parse "
+                "reported (any position when it succeeded); vm grammars also use NEWLINE and \"\\n\". Position (a) is checked on the DELIVERED error: "
+                "Error::location against the forest, Error::line_col against the line / column of the furthest failure counted directly from the input text "
+                "(pest::state on closure trees; for Vm::parse: location and line_col of its error agree with each other and with the transcription's).",
         "exhaustive": True,
         "exhaustive_bound": "the `small` family (see rule); the theorems are unbounded",
         "samples": ["lim=- det=0 in=- env=- prog=(rule 0 (else (rule 1 (str 61)) (rule 2 (str 62))))",
@@ -257,6 +261,7 @@ def run(tier, seed, replay=None):
         "mismatches": len([m for m in mism if m["kind"] != "known"]),
         "failing_parses_checked_against_spec": stats.get("spec_checked", 0),
         "vm_cases": stats.get("vm_cases", 0),
+        "failing_parses_whose_furthest_failure_is_on_a_line_terminator": stats.get("failure_on_line_terminator", 0),
         "known_class_cases": stats.get("known_class", 0),
         "known_witness_reproduced": reproduced,
         "outcomes": {k: stats.get(k, 0) for k in ("ok", "failing", "panics", "diverged")},
